@@ -35,10 +35,25 @@ package main
 // maps with entries that have no values, odd address forms, zero and extreme
 // times, durations, statuses and sizes). Same reference renderer, same oracle:
 // exactly one intact line per event, no panic.
+//
+// Faults of the log target (both parts, chosen from the scenario tape): the n-th
+// Write call of the target returns an error (nothing or a part of the bytes
+// accepted), a short count with io.ErrShortWrite, blocks until a driver event
+// (at once, or only when nothing else can happen and after simulated time has
+// passed) or panics - once, for a few writes in a row, or from then on. The
+// oracle: a line the target refused is not demanded (and whatever else is written
+// for that Log call is not judged); every other completed request is logged with
+// one intact line, before, during and after the fault; every request is answered
+// (exactly as the upstream answered, except the one through whose handler the
+// target's own panic travels) and every Log call returns (or passes the target's
+// own panic on): a task that waits for a lock nobody releases, or that never
+// leaves package logger although the target does not hold it, is a violation.
 
 import (
 	"bytes"
+	"errors"
 	"fmt"
+	"io"
 	"math"
 	"net"
 	"net/http"
@@ -47,6 +62,7 @@ import (
 	"strconv"
 	"strings"
 	"sync"
+	"testing/synctest"
 	"time"
 
 	"crypto/tls"
@@ -105,6 +121,7 @@ type c20Scenario struct {
 	Direct        *c20Direct           `json:"direct_logger_calls,omitempty"` // the statement-level part: no proxy, tasks call Logger.Log
 	FineYields    bool                 `json:"yields_inside_number_formatter,omitempty"`
 	Stick         int                  `json:"stick"`
+	Target        []c20WFault          `json:"log_target_faults,omitempty"`
 
 	epoch    time.Time
 	uuids    [][24]byte
@@ -592,6 +609,7 @@ func c20Gen(g *simcore.Tape, thorough bool) *c20Scenario {
 			sc.uuids = append(sc.uuids, u)
 		}
 	}
+	sc.Target = c20GenTarget(g, id)
 	return sc
 }
 
@@ -622,6 +640,61 @@ func c20Table(sc *c20Scenario) string {
 		b.WriteString("\n")
 	}
 	return b.String()
+}
+
+// ---------------------------------------------------------------- faults of the log target
+
+// c20WFault is one fault of the access log target: it starts at the At-th Write call (counted from 0 over all calls
+// of the run) and affects Count calls in a row.
+type c20WFault struct {
+	At   int    `json:"at_write"`
+	Kind string `json:"kind"` // error | short | block | panic
+	// error / short / panic: Write calls affected in a row (1000: every call from At on)
+	Count int `json:"writes_affected"`
+	// error / short: portion of the bytes the target accepts before it reports the error (always fewer than all)
+	Accept int `json:"accepted_permille,omitempty"`
+	// block: the call goes on at a driver event that is offered once BlockFor of simulated time has passed and, if
+	// Late, only when nothing else can happen (every other request has got as far as it can get)
+	Late     bool          `json:"unblocked_only_when_nothing_else_can_happen,omitempty"`
+	BlockFor time.Duration `json:"blocks_at_least,omitempty"`
+}
+
+var c20WKinds = []string{"error", "error", "error", "short", "short", "block", "block", "block", "panic", "panic"}
+
+// c20GenTarget draws the faults of the log target for a scenario that plans total Log calls.
+func c20GenTarget(g *simcore.Tape, total int) []c20WFault {
+	if !g.Chance(35) {
+		return nil
+	}
+	var out []c20WFault
+	// the first fault begins while later Log calls are still to come (if the scenario has more than one)
+	at := 0
+	if total > 2 {
+		at = g.Intn(total - 1)
+	}
+	n := 1
+	if g.Chance(30) {
+		n = 2
+	}
+	for i := 0; i < n; i++ {
+		f := c20WFault{At: at, Kind: simcore.Pick(g, c20WKinds), Count: 1}
+		switch f.Kind {
+		case "error":
+			f.Count = simcore.Pick(g, []int{1, 1, 1, 2, 3, 1000})
+			f.Accept = simcore.Pick(g, []int{0, 0, 0, 500, 999})
+		case "short":
+			f.Count = simcore.Pick(g, []int{1, 1, 2, 3, 1000})
+			f.Accept = simcore.Pick(g, []int{500, 0, 1, 999})
+		case "panic":
+			f.Count = simcore.Pick(g, []int{1, 1, 2})
+		case "block":
+			f.Late = g.Bool()
+			f.BlockFor = simcore.Pick(g, []time.Duration{0, 0, time.Millisecond, time.Second, time.Minute, time.Hour})
+		}
+		out = append(out, f)
+		at += f.Count + g.Intn(2)
+	}
+	return out
 }
 
 // ---------------------------------------------------------------- scenario of the direct part
@@ -824,26 +897,128 @@ func c20GenDirect(g *simcore.Tape, sc *c20Scenario, thorough bool) {
 		}
 		dd.Tasks = append(dd.Tasks, evs)
 	}
+	total := 0
+	for _, evs := range dd.Tasks {
+		total += len(evs)
+	}
+	sc.Target = c20GenTarget(g, total)
 }
 
 // ---------------------------------------------------------------- observation
 
 type c20Write struct {
-	b   []byte
+	b   []byte // the bytes the target accepted
 	key string // task that wrote + "#" + number of the Logger.Log call it is in (handler tasks: always 0)
+	// the target refused this write (error, short count, panic): what it was handed and which fault it was
+	failed  bool
+	attempt []byte
+	fault   string
 }
 
-// c20Writer is the access log target: it keeps every Write call apart (the logger issues one per line).
+// c20WriterPanic is the value the log target panics with.
+type c20WriterPanic struct{}
+
+// c20MaxTries: refused writes of one Log call after which the call counts as never ending
+const c20MaxTries = 500
+
+var errC20Target = errors.New("write /var/log/fabio/access.log: no space left on device")
+
+// c20Writer is the access log target: it keeps every Write call apart (the logger issues one per line) and plays the
+// faults of the scenario.
 type c20Writer struct {
 	mu     sync.Mutex
 	writes []c20Write
 	call   map[string]int // direct part: task -> index of the Logger.Log call in progress
+
+	r        *simcore.Run
+	hint     func(time.Time)
+	faults   []c20WFault
+	ncalls   int
+	fired    []string        // kinds of the faults that fired, in order
+	panicked map[string]bool // keys of the writes at which the target panicked
+	tries    map[string]int  // key -> refused writes of that Log call
+	stop     chan struct{}   // closed at teardown
+	// a blocked Write call waits for blocked to be closed
+	blocked   chan struct{}
+	blockedBy c20WFault
+	blockedAt time.Time
+}
+
+func c20NewWriter(r *simcore.Run, sc *c20Scenario, hint func(time.Time)) *c20Writer {
+	return &c20Writer{r: r, hint: hint, faults: sc.Target, panicked: map[string]bool{}, tries: map[string]int{}, stop: make(chan struct{})}
 }
 
 func (w *c20Writer) Write(p []byte) (int, error) {
 	t := simhook.CurrentTask()
 	w.mu.Lock()
-	w.writes = append(w.writes, c20Write{b: append([]byte(nil), p...), key: fmt.Sprintf("%s#%d", t, w.call[t])})
+	key := fmt.Sprintf("%s#%d", t, w.call[t])
+	n := w.ncalls
+	w.ncalls++
+	var f *c20WFault
+	for i := range w.faults {
+		if x := &w.faults[i]; x.At <= n && n-x.At < x.Count {
+			f = x
+			break
+		}
+	}
+	if f != nil && f.Kind != "block" {
+		// a Log call that hands its line to a target that keeps refusing it over and over never ends: reported once, and
+		// the target gives in so that the run does
+		if w.tries[key]++; w.tries[key] > c20MaxTries {
+			if w.tries[key] == c20MaxTries+1 {
+				w.r.Fail("lockup", "log-call-retries-forever/after-log-target-"+f.Kind, "the Log call %s has handed its line to the log target %d times, the target refuses every write from write %d on (%s): the call does not end while the target is out of order", key, c20MaxTries, f.At, f.Kind)
+			}
+			f = nil
+		}
+	}
+	if f == nil {
+		w.writes = append(w.writes, c20Write{b: append([]byte(nil), p...), key: key})
+		w.mu.Unlock()
+		return len(p), nil
+	}
+	w.fired = append(w.fired, f.Kind)
+	w.r.Fault("log_target_" + f.Kind)
+	switch f.Kind {
+	case "error", "short":
+		k := len(p) * f.Accept / 1000
+		if f.Accept > 0 && k == 0 {
+			k = 1
+		}
+		if k >= len(p) {
+			k = len(p) - 1
+		}
+		if k < 0 {
+			k = 0
+		}
+		err := errC20Target
+		if f.Kind == "short" {
+			err = io.ErrShortWrite
+		}
+		w.writes = append(w.writes, c20Write{b: append([]byte(nil), p[:k]...), key: key, failed: true, attempt: append([]byte(nil), p...), fault: f.Kind})
+		w.r.Tracef("log target: write %d (%s) accepts %d of %d bytes and returns %q", n, key, k, len(p), err)
+		w.mu.Unlock()
+		return k, err
+	case "panic":
+		w.writes = append(w.writes, c20Write{key: key, failed: true, attempt: append([]byte(nil), p...), fault: f.Kind})
+		w.panicked[key] = true
+		w.r.Tracef("log target: write %d (%s) panics", n, key)
+		w.mu.Unlock()
+		panic(c20WriterPanic{})
+	}
+	// block: the bytes are accepted once the driver lets the call go on
+	ch := make(chan struct{})
+	w.blocked, w.blockedBy, w.blockedAt = ch, *f, time.Now()
+	w.r.Tracef("log target: write %d (%s) blocks", n, key)
+	w.mu.Unlock()
+	if f.BlockFor > 0 && w.hint != nil {
+		w.hint(time.Now().Add(f.BlockFor))
+	}
+	select {
+	case <-ch:
+	case <-w.stop:
+	}
+	w.mu.Lock()
+	w.writes = append(w.writes, c20Write{b: append([]byte(nil), p...), key: key})
 	w.mu.Unlock()
 	return len(p), nil
 }
@@ -855,6 +1030,110 @@ func (w *c20Writer) enter(task string, k int) {
 	}
 	w.call[task] = k
 	w.mu.Unlock()
+}
+
+func (w *c20Writer) isBlocked() bool {
+	w.mu.Lock()
+	defer w.mu.Unlock()
+	return w.blocked != nil
+}
+
+// raisedPanic reports whether the target panicked in the write of that Log call.
+func (w *c20Writer) raisedPanic(key string) bool {
+	w.mu.Lock()
+	defer w.mu.Unlock()
+	return w.panicked[key]
+}
+
+// after names the fault of the target that fired last (for signatures).
+func (w *c20Writer) after() string {
+	w.mu.Lock()
+	defer w.mu.Unlock()
+	if len(w.fired) == 0 {
+		return ""
+	}
+	return "/after-log-target-" + w.fired[len(w.fired)-1]
+}
+
+// source offers the event that lets a blocked Write call go on. others counts what else the driver could do (besides
+// releasing tasks).
+func (w *c20Writer) source(d *simcore.Driver, others func() int) simcore.Source {
+	return func() []simcore.Event {
+		w.mu.Lock()
+		ch, f, at := w.blocked, w.blockedBy, w.blockedAt
+		w.mu.Unlock()
+		if ch == nil || time.Now().Before(at.Add(f.BlockFor)) {
+			return nil
+		}
+		if f.Late && (len(d.Sim.Enabled()) > 0 || others() > 0) {
+			return nil
+		}
+		return []simcore.Event{{Key: "zlogtarget:unblock", Fire: func() {
+			waiting := 0
+			for _, st := range d.Sim.TaskStates() {
+				if strings.Contains(st, " lock-wait ") {
+					waiting++
+				}
+			}
+			if waiting > 0 {
+				w.r.Probe("log_calls_queued_behind_blocked_target")
+			}
+			w.r.Tracef("log target: the blocked write goes on (%d tasks wait for a lock)", waiting)
+			w.mu.Lock()
+			w.blocked = nil
+			w.mu.Unlock()
+			close(ch)
+		}}}
+	}
+}
+
+// c20Drive steps the driver until done holds; while a Write call of the log target is blocked and nothing is enabled
+// the clock moves on (the event that unblocks it may be due later).
+func c20Drive(d *simcore.Driver, w *c20Writer, maxSteps int, horizon time.Duration, done func() bool) bool {
+	for i := 0; i < maxSteps; i++ {
+		synctest.Wait()
+		if done() {
+			return true
+		}
+		if !d.Step() {
+			if !w.isBlocked() || !d.IdleAdvance(horizon) {
+				break
+			}
+		}
+	}
+	synctest.Wait()
+	return done()
+}
+
+// c20Stuck decides what it means that the run cannot go on although Log calls are unfinished: nothing is enabled, the
+// target holds no call, and tasks wait for a lock nobody will release or have not come back from package logger.
+func c20Stuck(r *simcore.Run, d *simcore.Driver, w *c20Writer, what string) bool {
+	synctest.Wait()
+	if w.isBlocked() || len(d.Events()) > 0 {
+		return false
+	}
+	states := d.Sim.TaskStates()
+	lockWait := 0
+	for _, st := range states {
+		if strings.Contains(st, " lock-wait ") {
+			lockWait++
+		}
+	}
+	inLogger := d.Sim.InFunc("logger", "")
+	w.mu.Lock()
+	fired := append([]string(nil), w.fired...)
+	w.mu.Unlock()
+	switch {
+	case lockWait > 0 && inLogger > 0:
+		r.Fail("lockup", "logger-lock-never-released"+w.after(), "%s: %d tasks wait forever for a lock nobody will release, %d of them inside package logger (faults of the log target so far: %v; the target holds no call): %v", what, lockWait, inLogger, fired, states)
+	case lockWait > 0:
+		r.Fail("lockup", "lock-never-released"+w.after(), "%s: %d tasks wait forever for a lock nobody will release (faults of the log target so far: %v): %v", what, lockWait, fired, states)
+	case inLogger > 0:
+		r.Fail("lockup", "log-call-never-returns"+w.after(), "%s: %d tasks never come back from package logger although the log target holds no call (faults of the log target so far: %v): %v", what, inLogger, fired, states)
+	default:
+		return false
+	}
+	return true
 }
 
 // c20Obs is what the harness observes at its own seams (handler wrapper, clock, uuid source).
@@ -1274,14 +1553,16 @@ func runC20(r *simcore.Run) {
 	e := h2NewEnv(r, cfg, c20Table(sc))
 	defer e.finish()
 
-	// the access logger under test, writing to the recording target
-	w := &c20Writer{}
+	// the access logger under test, writing to the recording (and fault-playing) target
+	w := c20NewWriter(r, sc, e.d.Hint)
+	defer close(w.stop)
 	lg, err := logger.New(w, sc.Format)
 	if err != nil {
 		r.Fail("format", "rejected", "format %q over documented fields was rejected: %v", sc.Format, err)
 		return
 	}
 	e.proxy.Logger = lg
+	e.d.AddSource(w.source(e.d, func() int { return len(e.net.Events()) }))
 
 	obs := &c20Obs{perConn: map[string]int{}, taskReq: map[string]string{}, remote: map[string]string{}, tlsVer: map[string]uint16{},
 		tlsSuit: map[string]uint16{}, clock: map[string][]time.Time{}, uuidOf: map[string][24]byte{}}
@@ -1361,6 +1642,11 @@ func runC20(r *simcore.Run) {
 						abort = true
 						return
 					}
+					if _, mine := v.(c20WriterPanic); mine || w.raisedPanic(name+"#0") {
+						// the log target's own panic has travelled up through fabio's handler: not a panic of the
+						// logging (see the assumptions); it ends here, as it would in net/http's per-connection recover
+						return
+					}
 					panic(v)
 				}
 			}()
@@ -1400,12 +1686,16 @@ func runC20(r *simcore.Run) {
 		e.client(&sc.Clients[i])
 	}
 	if !e.run(600000, 12*time.Hour) {
-		r.Trouble("clients did not finish: %v", e.d.Sim.TaskStates())
+		if !c20Stuck(r, e.d, w, "requests are never answered") {
+			r.Trouble("clients did not finish: %v", e.d.Sim.TaskStates())
+		}
 		return
 	}
 	// the log line is written after the response: let every handler return
-	if !e.d.Run(200000, func() bool { return e.d.Sim.Pending() == 0 }) {
-		r.Trouble("handlers did not finish: %v", e.d.Sim.TaskStates())
+	if !c20Drive(e.d, w, 200000, 14*time.Hour, func() bool { return e.d.Sim.Pending() == 0 }) {
+		if !c20Stuck(r, e.d, w, "request handlers never return") {
+			r.Trouble("handlers did not finish: %v", e.d.Sim.TaskStates())
+		}
 		return
 	}
 	if overlap > 0 {
@@ -1438,6 +1728,11 @@ func runC20(r *simcore.Run) {
 			faulted := rq.Resp.Hang || rq.Resp.ResetAt != 0 || (sc.HeaderTimeout > 0 && rq.Resp.Delay >= sc.HeaderTimeout)
 			if faulted {
 				r.Fault("upstream_silent_or_reset")
+			}
+			if w.raisedPanic(reqTask[rq.ID] + "#0") {
+				// the panic of the log target went up through the handler of this request: what its client sees is not judged
+				faulted = true
+				r.Probe("log_target_panic_through_handler")
 			}
 			r.Tracef("exchange %s -> interim=%v status=%d body=%d err=%v", rq.ID, res.Interim, res.Status, len(res.Body), res.Err)
 			if res.Err != nil || res.Status == 0 {
@@ -1603,25 +1898,72 @@ func runC20(r *simcore.Run) {
 // c20Judge compares what was written to the access log with the reference renderings of the events that have to be
 // described: one intact line per event, every line the rendering of its event.
 func c20Judge(r *simcore.Run, sc *c20Scenario, events []*c20Event, w *c20Writer) {
-	evByKey := map[string]*c20Event{}
-	for _, ev := range events {
-		evByKey[ev.key] = ev
-	}
-	// lines: every Write call is exactly one line
+	// lines: every Write call hands over complete lines (one; several are cut apart)
 	w.mu.Lock()
 	writes := w.writes
 	w.mu.Unlock()
+	// Log calls with a write the target refused (error, short count, panic): the statement cannot demand their line, and
+	// what the target holds of that call (the accepted part, a second attempt, the rest) is not judged. A complete line
+	// that describes such an event and arrives with another call (a logger that hands a refused line over again) is fine.
+	refused := map[string]bool{}
+	for _, wr := range writes {
+		if wr.failed {
+			refused[wr.key] = true
+		}
+	}
+	evByKey := map[string]*c20Event{}
+	optional := make([]bool, len(events))
+	for j, ev := range events {
+		evByKey[ev.key] = ev
+		if refused[ev.key] {
+			optional[j] = true
+			r.Probe("line_refused_by_log_target")
+			r.Tracef("not demanded: the line of %s (refused by the log target)", ev.key)
+			delete(refused, ev.key)
+		}
+	}
+	// refused writes issued by something else than the caller of Log excuse the event they render
+	var orphans []string
+	exempt := map[string]bool{}
+	judged := 0
+	for _, wr := range writes {
+		if wr.failed {
+			exempt[wr.key] = true
+			if refused[wr.key] {
+				orphans = append(orphans, string(wr.attempt))
+			}
+		}
+	}
 	var lines []string
 	var lineKey []string
 	for _, wr := range writes {
 		s := string(wr.b)
-		r.Tracef("log %s", strconv.Quote(c20Clip(s)))
-		if !strings.HasSuffix(s, "\n") || strings.Count(s, "\n") != 1 || len(s) < 2 {
-			r.Fail("line", "not-one-line", "a write to the access log is not exactly one line: %s", strconv.Quote(c20Clip(s)))
+		if wr.failed {
+			r.Tracef("log target refused (%s, %d of %d bytes accepted) %s", wr.fault, len(wr.b), len(wr.attempt), strconv.Quote(c20Clip(string(wr.attempt))))
 			continue
 		}
-		lines = append(lines, s)
-		lineKey = append(lineKey, wr.key)
+		if exempt[wr.key] {
+			r.Tracef("log (same Log call as a refused write, not judged) %s", strconv.Quote(c20Clip(s)))
+			continue
+		}
+		r.Tracef("log %s", strconv.Quote(c20Clip(s)))
+		if !strings.HasSuffix(s, "\n") {
+			judged++
+			r.Fail("line", "not-one-line", "a write to the access log does not end with a complete line: %s", strconv.Quote(c20Clip(s)))
+			continue
+		}
+		for _, l := range strings.SplitAfter(s, "\n") {
+			if l == "" {
+				continue
+			}
+			judged++
+			if len(l) < 2 {
+				r.Fail("line", "not-one-line", "a write to the access log contains an empty line: %s", strconv.Quote(c20Clip(s)))
+				continue
+			}
+			lines = append(lines, l)
+			lineKey = append(lineKey, wr.key)
+		}
 	}
 	// reference parts per event
 	alts := make([][][]string, len(events))
@@ -1640,8 +1982,11 @@ func c20Judge(r *simcore.Run, sc *c20Scenario, events []*c20Event, w *c20Writer)
 		}
 		alts[j] = append(alts[j], []string{"\n"})
 	}
-	if len(events) > 0 {
-		r.Nontrivial()
+	for j := range events {
+		if !optional[j] {
+			r.Nontrivial() // at least one line is demanded and compared
+			break
+		}
 	}
 	if len(events) >= 2 {
 		r.Probe("two_or_more_logged_requests")
@@ -1674,9 +2019,27 @@ func c20Judge(r *simcore.Run, sc *c20Scenario, events []*c20Event, w *c20Writer)
 		}
 		return false
 	}
+	// the events whose line is demanded come first: lines that render several events alike go to them (an augmenting
+	// path never takes a line away from an event without giving it another one)
+	full := adj
+	adj = make([][]int, len(lines))
+	for i := range lines {
+		for _, j := range full[i] {
+			if !optional[j] {
+				adj[i] = append(adj[i], j)
+			}
+		}
+	}
+	matched := make([]bool, len(lines))
 	for i := range lines {
 		matchOfLine[i] = -1
-		try(i, make([]bool, len(events)))
+		matched[i] = try(i, make([]bool, len(events)))
+	}
+	adj = full
+	for i := range lines {
+		if !matched[i] {
+			try(i, make([]bool, len(events)))
+		}
 	}
 	for j, i := range matchOfEvent {
 		if i >= 0 {
@@ -1715,19 +2078,33 @@ func c20Judge(r *simcore.Run, sc *c20Scenario, events []*c20Event, w *c20Writer)
 			}
 		}
 		if len(adj[i]) > 0 {
-			r.Fail("lines", "extra", "access log line %s is logged more often than requests it describes were answered (%d lines, %d answered requests)", strconv.Quote(c20Clip(l)), len(writes), len(events))
+			r.Fail("lines", "extra", "access log line %s is logged more often than requests it describes were answered (%d lines, %d answered requests)", strconv.Quote(c20Clip(l)), judged, len(events))
 			continue
 		}
 		r.Fail("line", "matches-no-request", "access log line %s is not the rendering of any request of this run (format %q)", strconv.Quote(c20Clip(l)), c20Clip(sc.Format))
 	}
 	for j, ev := range events {
 		if matchOfEvent[j] < 0 && !blamed[j] {
+			excused := optional[j]
+			for k, o := range orphans {
+				if ok, _ := c20Match(o, alts[j]); ok {
+					orphans = append(orphans[:k], orphans[k+1:]...)
+					excused = true
+					break
+				}
+			}
+			if excused {
+				if !optional[j] {
+					r.Probe("line_refused_by_log_target")
+				}
+				continue
+			}
 			r.Fail("lines", "missing", "%s was answered with status %d but no line of the access log describes it (%d lines, %d answered requests, format %q)",
-				ev.what, ev.status, len(writes), len(events), c20Clip(sc.Format))
+				ev.what, ev.status, judged, len(events), c20Clip(sc.Format))
 		}
 	}
-	if len(writes) > len(events) {
-		r.Fail("lines", "extra", "%d requests were answered with a status but the access log has %d writes (format %q)", len(events), len(writes), c20Clip(sc.Format))
+	if judged > len(events) {
+		r.Fail("lines", "extra", "%d requests were answered with a status but the access log has %d lines, not counting what belongs to Log calls with a write the log target refused (format %q)", len(events), judged, c20Clip(sc.Format))
 	}
 }
 
@@ -1815,7 +2192,9 @@ func runC20Direct(r *simcore.Run, sc *c20Scenario) {
 	if !sc.FineYields {
 		d.Sim.Activate("-logger:atoi")
 	}
-	w := &c20Writer{}
+	w := c20NewWriter(r, sc, d.Hint)
+	defer close(w.stop)
+	d.AddSource(w.source(d, func() int { return 0 }))
 	lg, err := logger.New(w, sc.Format)
 	if err != nil {
 		r.Fail("format", "rejected", "format %q over documented fields was rejected: %v", sc.Format, err)
@@ -1848,7 +2227,19 @@ func runC20Direct(r *simcore.Run, sc *c20Scenario) {
 			for k, c := range calls[t] {
 				w.enter(name, k)
 				entered[t] = k + 1
-				lg.Log(c.le)
+				func() {
+					defer func() {
+						if v := recover(); v != nil {
+							// the log target's own panic came out of Log: not a panic of the logging (see the assumptions)
+							if _, mine := v.(c20WriterPanic); mine || w.raisedPanic(c.ev.key) {
+								r.Probe("log_target_panic_through_log_call")
+								return
+							}
+							panic(v)
+						}
+					}()
+					lg.Log(c.le)
+				}()
 				returned[t] = k + 1
 			}
 		})
@@ -1859,8 +2250,10 @@ func runC20Direct(r *simcore.Run, sc *c20Scenario) {
 			overlap++
 		}
 	}
-	if !d.Run(400000, func() bool { return d.Sim.Pending() == 0 }) {
-		r.Trouble("logging tasks did not finish: %v", d.Sim.TaskStates())
+	if !c20Drive(d, w, 400000, 3*time.Hour, func() bool { return d.Sim.Pending() == 0 }) {
+		if !c20Stuck(r, d, w, "Log calls never return") {
+			r.Trouble("logging tasks did not finish: %v", d.Sim.TaskStates())
+		}
 		return
 	}
 	if overlap > 0 {
